@@ -111,6 +111,11 @@ def c11_eval(p):
         out["violation"] = _viol("C14", "is_empty", type(e).__name__, "is_empty raised %s" % type(e).__name__, p, "c11_eval")
         return out
     exact = not feasible_exact(T)
+    if exact and feasible_exact(T, box=False):
+        # feasible only outside the box |v| <= 1000: outside the property's numerical reading, no verdict
+        out["stats"]["feasible_only_outside_the_box"] = 1
+        out["nontrivial"] = False
+        return out
     out["stats"]["empty_%s" % bool(got)] = 1
     out["sample"] = {"terms": [str(t) for t in T.terms], "margin": p["margin"], "answer": bool(got)}
     if bool(got) != exact:
@@ -451,7 +456,7 @@ def c17_eval(p):
             overlap = False
             for i in range(len(A)):
                 for j in range(i + 1, len(A)):
-                    if feasible_exact(type(A[0])(list(A[i].terms) + list(A[j].terms))):
+                    if feasible_exact(type(A[0])(list(A[i].terms) + list(A[j].terms)), box=False):
                         overlap = True
             try:
                 NestedPolyhedra(A, force_empty_intersection=True)
@@ -477,7 +482,7 @@ def c17_eval(p):
             r2 = z_check([res, z3.Not(z3.And(z3.Or(*[z3.And(*[z3.Not(z_some_violated([t], env)) for t in a.terms]) for a in A]) if A else z3.BoolVal(False), z3.Or(*[z3.And(*[z3.Not(z_some_violated([t], env)) for t in b.terms]) for b in B]) if B else z3.BoolVal(False)))], env)
             if r1 not in (None, "unknown") or r2 not in (None, "unknown"):
                 out["violation"] = _viol("C17", "merge", "not_intersection", "compound merge guarantees are not the intersection of the unions; point %s" % (r1 if r1 not in (None, "unknown") else r2,), p, "c17_eval")
-            elif any(not feasible_exact(gl) for gl in got):
+            elif any(not feasible_exact(gl, box=False) for gl in got):
                 out["violation"] = _viol("C17", "merge", "empty_alternative_kept", "compound merge kept an empty alternative", p, "c17_eval")
     except Exception as e:
         out["violation"] = _viol("C14", "compound", type(e).__name__, "compound operation raised %s: %s" % (type(e).__name__, str(e)[:150]), p, "c17_eval")
